@@ -14,8 +14,9 @@ package bleve
 //@ func hitsInCurrentPage
 //@   props C09
 //@   mode int
-//@   impure sortFunc
-//@   requires req != nil && req.Size >= 0 && req.From >= 0
+//@   impure sortFunc: hits[*]
+//@   modifies hits[*]
+//@   requires req != nil && req.Size >= 0 && req.From >= 0 && forall(k, 0, len(req.Sort), req.Sort[k] != nil)
 //@   ensures len(result) == ite(len(hits) - req.From > 0, ite(req.Size < len(hits) - req.From, req.Size, len(hits) - req.From), 0)
 //@   ensures implies(len(result) > 0, base(result) == base(hits) && offset(result) == offset(hits) + req.From)
 
@@ -24,10 +25,11 @@ package bleve
 //@ func copySearchRequest
 //@   props C09
 //@   mode int
-//@   requires req != nil && req.Size >= 0 && req.From >= 0 && req.Size + req.From <= 4611686018427387904
+//@   requires req != nil && req.Size >= 0 && req.From >= 0 && req.Size + req.From <= 4611686018427387904 && forall(k, 0, len(req.Sort), req.Sort[k] != nil)
 //@   ensures result != nil && fresh(result) && result.Size == req.Size + req.From && result.From == 0
-//@   ensures fieldsEqualExcept(result, req, Size, From, Sort, PreSearchData, Params, Explain, ClientContextID, sortFunc)
-//@   ensures result.Explain == req.Explain && len(result.Sort) == len(req.Sort)
+//@   ensures fieldsEqualExcept(result, req, Size, From, Sort, PreSearchData, Params, ClientContextID, sortFunc)
+//@   ensures len(result.Sort) == len(req.Sort) && forall(k, 0, len(req.Sort), sortCopyOf(result.Sort[k], req.Sort[k]))
+//@   ensures result.PreSearchData == preSearchData
 
 //@ func newSearchHitSorter
 //@   props C09
